@@ -191,3 +191,35 @@ package internal
 //@   at call generate 1 ghost next = pure($OFF, posFile, pure($GEND, gen))
 //@   at slice 3 assert [C16] tail-copied-from-the-last-directives-end-to-end-of-file: low == next && high == baselen
 //@   at call Write 2 pre assert [C16] tail-goes-to-the-output-buffer: arg0 == &buff
+
+// ---------------------------------------------------------------------------
+// Frame conditions, discharged structurally on the SSA of every non-test
+// function of internal/**, cmd/cff (pass K). Each site found in the code must
+// be listed here with a justification the checker can validate; a site that is
+// not listed is a failed obligation.
+//
+// C17 (determinism): every iteration over a Go map or a typeutil.Map, and
+// every source of nondeterminism.
+//   sorted-after        the iteration only appends to a slice that is sorted afterwards
+//   commutative-insert  the iteration only inserts into another map
+//   diagnostics-only    the iteration only reports diagnostics (no output is written then)
+
+//@ frame mapiter internal.(*compiler).validateFuncs #1 diagnostics-only: unused cff.Params inputs are reported; Process returns before any generator runs
+//@ frame mapiter internal.(*generator).GenerateFile #1 commutative-insert: aliases[names[0]] = struct{}{} records the import names in use
+//@ frame mapiter internal.(*generator).GenerateFile #2 sorted-after: sort.Strings(newImports)
+//@ frame mapiter internal.(*generatorv2).GenerateFile #1 commutative-insert: aliases[names[0]] = struct{}{}
+//@ frame mapiter internal.(*generatorv2).GenerateFile #2 sorted-after: sort.Strings(newImports)
+//@ frame mapiter internal.paramExprs #1 sorted-after: sort.Slice(exprs, by position)
+//@ frame mapiter pkg.(*goPackagesLoader).Load #1 sorted-after: sort.Strings(uniqueTags)
+//@ frame nondet internal.newGenerator #1 magic-token: seeds the CFF_MAGIC_TOKEN marker, which source-map mode replaces by line directives and base mode never emits
+//@ frame nondet internal.newGenerator #2 magic-token: see #1
+//@ frame nondet internal.newGenerator #3 magic-token: see #1
+//@ frame nondet internal.newGenerator #4 magic-token: see #1
+//
+// C16 (only the documented output path is written):
+//@ frame fswrite internal.(*generator).GenerateFile #1 temp-file-on-error-path: debugging aid when the generated text does not parse
+//@ frame fswrite internal.(*generator).GenerateFile #2 output-path: source-map mode
+//@ frame fswrite internal.(*generator).GenerateFile #3 output-path: base mode
+//@ frame fswrite internal.(*generator).resetMagicTokens #1 output-path: intermediate write of the same file
+//@ frame fswrite internal.(*generatorv2).GenerateFile #1 temp-file-on-error-path: debugging aid when the generated text does not parse
+//@ frame fswrite internal.(*generatorv2).GenerateFile #2 output-path: modifier mode
